@@ -78,6 +78,7 @@ Up(x) == IF x[1] = 0 THEN Zero
          ELSE IF x[1] \div x[2] >= 1 THEN (IF x[1] < 30000000 THEN Grid(x, 64) ELSE <<(x[1] \div x[2]) + 1, 1>>)
          ELSE IF x[2] \div x[1] <= 64 THEN (IF x[1] < 500000 THEN Grid(x, 4096) ELSE <<1, 1>>)
          ELSE IF x[1] < 8000 THEN Grid(x, 262144) ELSE <<1, 64>>
+RMax(a, b) == IF RLt(a, b) THEN b ELSE a
 MAdd(a, b) == Up(RAdd(a, b))
 MMul(a, b) == Up(RMul(a, b))
 
@@ -124,7 +125,6 @@ PartTensor(P, C, cs, part) ==
       \*   Amp     = max_q PJ / |det J| >= 1      scales the tolerance (relative error of 1 / det J)
       JacM == [s \in 1..nsides |-> [q \in 1..NQ |-> [c \in 1..gd |-> [k \in 1..td |->
                 LET F(n) == RAbs(RMul(XD(s, n, c), R(xtab[s][D1(k)][q][n][1]))) IN Up(RSumTo(F, nxn))]]]]
-      RMax(a, b) == IF RLt(a, b) THEN b ELSE a
       PJ == [s \in 1..nsides |-> [q \in 1..NQ |->
                LET RECURSIVE PK(_)
                    PK(k) == IF k = 0 THEN One
@@ -157,6 +157,7 @@ PartTensor(P, C, cs, part) ==
       Normal(s, q) == LET r == NormalRaw(s, q)  l2 == Dot(r, r)
                       IN [c \in 1..gd |-> RDiv(r[c], RSqrt(l2))]
       NormalOk(s, q) == RIsSquare(Dot(NormalRaw(s, q), NormalRaw(s, q)))
+      NormalF == [s \in 1..nsides |-> [q \in 1..NQ |-> Normal(s, q)]]
       \* ------------------------------------------------------------------
       \* value of (derivative dv of component comp of) basis function i of space sp at (s, q)
       \* `ab` = TRUE evaluates the same expression with every factor replaced by its absolute value:
@@ -188,16 +189,19 @@ PartTensor(P, C, cs, part) ==
       Side(r) == IF r = "-" THEN 2 ELSE 1
       \* argument leaves: value for macro dof i (0-based over [+ side dofs, - side dofs])
       ArgDim(n) == P.spaces[P.args[n + 1]].dim
-      ArgLeaf(lf, q, i) ==
+      ArgLeaf(lf, q, i, ab) ==
         LET dim == ArgDim(lf.n)
             s == IF nsides = 2 THEN (i \div dim) + 1 ELSE 1
-        IN IF nsides = 2 /\ s # Side(lf.r) THEN <<Zero, Zero>>
-           ELSE LET v == Basis(P.args[lf.n + 1], s, q, i % dim, lf.c, lf.d, FALSE)
-                IN IF Len(lf.d) = 0 /\ P.spaces[P.args[lf.n + 1]].subs[DofSub(P.spaces[P.args[lf.n + 1]], i % dim)].map = "identity"
-                   THEN <<v, IF v[1] = 0 THEN Zero ELSE Up(RAbs(v))>>
-                   ELSE <<v, Up(Basis(P.args[lf.n + 1], s, q, i % dim, lf.c, lf.d, TRUE))>>
+        IN IF nsides = 2 /\ s # Side(lf.r) THEN Zero
+           ELSE Basis(P.args[lf.n + 1], s, q, i % dim, lf.c, lf.d, ab)
       AL == [a \in 1..Len(part.aleaves) |-> [q \in 1..NQ |->
-               [i \in 0..(nsides * ArgDim(part.aleaves[a].n) - 1) |-> ArgLeaf(part.aleaves[a], q, i)]]]
+               [i \in 0..(nsides * ArgDim(part.aleaves[a].n) - 1) |-> ArgLeaf(part.aleaves[a], q, i, FALSE)]]]
+      \* magnitude of an argument leaf at q: the maximum over the dofs (one bound per case is enough, see Mag)
+      ALM == [a \in 1..Len(part.aleaves) |-> [q \in 1..NQ |->
+               LET n == nsides * ArgDim(part.aleaves[a].n)
+                   RECURSIVE MX(_)
+                   MX(i) == IF i < 0 THEN Zero ELSE RMax(MX(i - 1), ArgLeaf(part.aleaves[a], q, i, TRUE))
+               IN Up(MX(n - 1))]]
       \* coefficient leaves: complex value at q
       CoefLeaf(lf, q) ==
         LET spn == P.coefs[lf.k + 1]  dim == P.spaces[spn].dim  s == Side(lf.r)
@@ -213,71 +217,85 @@ PartTensor(P, C, cs, part) ==
         IN Acc(dim)
       CL == [a \in 1..Len(part.cleaves) |-> [q \in 1..NQ |-> CoefLeaf(part.cleaves[a], q)]]
       \* ------------------------------------------------------------------
-      \* integrand tree: returns <<complex value, real magnitude bound>>
+      \* integrand tree: complex value at (q, i, j)
       RECURSIVE Ev(_, _, _, _)
-      RECURSIVE EvAll(_, _, _, _, _)
       RECURSIVE Cond(_, _, _, _)
-      EvAll(ts, k, q, i, j) == IF k = 0 THEN <<>> ELSE Append(EvAll(ts, k - 1, q, i, j), Ev(ts[k], q, i, j))
-      Leaf(v) == <<v, IF CIsZero(v) THEN Zero ELSE Up(CMag(v))>>
       Cond(t, q, i, j) ==
         IF t.t = "and" THEN Cond(t.a, q, i, j) /\ Cond(t.b, q, i, j)
         ELSE IF t.t = "or" THEN Cond(t.a, q, i, j) \/ Cond(t.b, q, i, j)
         ELSE IF t.t = "not" THEN ~Cond(t.a, q, i, j)
-        ELSE LET l == Ev(t.a, q, i, j)[1][1]  r == Ev(t.b, q, i, j)[1][1]
+        ELSE LET l == Ev(t.a, q, i, j)[1]  r == Ev(t.b, q, i, j)[1]
              IN CASE t.t = "lt" -> RLt(l, r) [] t.t = "le" -> RLe(l, r) [] t.t = "gt" -> RLt(r, l)
                   [] t.t = "ge" -> RLe(r, l) [] t.t = "eq" -> l = r [] t.t = "ne" -> l # r
       Ev(t, q, i, j) ==
-        CASE t.t = "num" -> Leaf(<<R(t.re), R(t.im)>>)
-          [] t.t = "sum" -> LET vs == EvAll(t.a, Len(t.a), q, i, j)
-                                RECURSIVE SA(_)
-                                SA(k) == IF k = 0 THEN <<CZero, Zero>>
-                                         ELSE LET h == SA(k - 1)
-                                              IN <<CAdd(h[1], vs[k][1]), MAdd(h[2], vs[k][2])>>
-                            IN SA(Len(vs))
+        CASE t.t = "num" -> <<R(t.re), R(t.im)>>
+          [] t.t = "sum" -> LET RECURSIVE SA(_)
+                                SA(k) == IF k = 0 THEN CZero ELSE CAdd(SA(k - 1), Ev(t.a[k], q, i, j))
+                            IN SA(Len(t.a))
           [] t.t = "prod" -> LET RECURSIVE PA(_)
-                                 PA(k) == IF k = 0 THEN <<COne, One>>
+                                 PA(k) == IF k = 0 THEN COne
                                           ELSE LET h == PA(k - 1)
-                                               IN IF CIsZero(h[1]) /\ h[2][1] = 0 THEN h
-                                                  ELSE LET v == Ev(t.a[k], q, i, j)
-                                                       IN <<CMul(h[1], v[1]), MMul(h[2], v[2])>>
+                                               IN IF CIsZero(h) THEN h ELSE CMul(h, Ev(t.a[k], q, i, j))
                              IN PA(Len(t.a))
-          [] t.t = "div" -> LET a == Ev(t.a, q, i, j)  b == Ev(t.b, q, i, j)
-                            IN <<CDiv(a[1], b[1]), Up(RDiv(a[2], CMag(b[1])))>>
-          [] t.t = "pow" -> LET a == Ev(t.a, q, i, j) IN Leaf(CPow(a[1], t.e))
-          [] t.t = "abs" -> LET a == Ev(t.a, q, i, j)[1] IN Leaf(CReal(RSqrt(CAbs2(a))))
-          [] t.t = "sqrt" -> LET a == Ev(t.a, q, i, j)[1] IN Leaf(CReal(RSqrt(a[1])))
-          [] t.t = "conj" -> LET a == Ev(t.a, q, i, j) IN <<CConj(a[1]), a[2]>>
-          [] t.t = "real" -> LET a == Ev(t.a, q, i, j) IN <<CReal(a[1][1]), a[2]>>
-          [] t.t = "imag" -> LET a == Ev(t.a, q, i, j) IN <<CReal(a[1][2]), a[2]>>
+          [] t.t = "div" -> CDiv(Ev(t.a, q, i, j), Ev(t.b, q, i, j))
+          [] t.t = "pow" -> CPow(Ev(t.a, q, i, j), t.e)
+          [] t.t = "abs" -> CReal(RSqrt(CAbs2(Ev(t.a, q, i, j))))
+          [] t.t = "sqrt" -> CReal(RSqrt(Ev(t.a, q, i, j)[1]))
+          [] t.t = "conj" -> CConj(Ev(t.a, q, i, j))
+          [] t.t = "real" -> CReal(Ev(t.a, q, i, j)[1])
+          [] t.t = "imag" -> CReal(Ev(t.a, q, i, j)[2])
           [] t.t = "cond" -> IF Cond(t.c, q, i, j) THEN Ev(t.a, q, i, j) ELSE Ev(t.b, q, i, j)
-          [] t.t = "max" -> LET a == Ev(t.a, q, i, j)  b == Ev(t.b, q, i, j)
-                            IN IF RLt(a[1][1], b[1][1]) THEN b ELSE a
-          [] t.t = "min" -> LET a == Ev(t.a, q, i, j)  b == Ev(t.b, q, i, j)
-                            IN IF RLt(b[1][1], a[1][1]) THEN b ELSE a
-          [] t.t = "al" -> LET v == AL[t.id][q][IF part.aleaves[t.id].n = 0 THEN i ELSE j] IN <<CReal(v[1]), v[2]>>
-          [] t.t = "cl" -> CL[t.id][q]
-          [] t.t = "const" -> Leaf(<<RInt(cs.c[t.k + 1][t.c + 1][1]), RInt(cs.c[t.k + 1][t.c + 1][2])>>)
+          [] t.t = "max" -> LET a == Ev(t.a, q, i, j)  b == Ev(t.b, q, i, j) IN IF RLt(a[1], b[1]) THEN b ELSE a
+          [] t.t = "min" -> LET a == Ev(t.a, q, i, j)  b == Ev(t.b, q, i, j) IN IF RLt(b[1], a[1]) THEN b ELSE a
+          [] t.t = "al" -> CReal(AL[t.id][q][IF part.aleaves[t.id].n = 0 THEN i ELSE j])
+          [] t.t = "cl" -> CL[t.id][q][1]
+          [] t.t = "const" -> <<RInt(cs.c[t.k + 1][t.c + 1][1]), RInt(cs.c[t.k + 1][t.c + 1][2])>>
+          [] t.t = "x" -> CReal(Xphys[Side(t.r)][q][t.c + 1])
+          [] t.t = "n" -> CReal(NormalF[Side(t.r)][q][t.c + 1])
+          [] t.t = "detJ" -> CReal(DetJ[Side(t.r)][q])
+          [] t.t = "J" -> CReal(Jac[Side(t.r)][q][t.c + 1][t.k + 1])
+          [] t.t = "K" -> CReal(Kinv[Side(t.r)][q][t.c + 1][t.k + 1])
+      \* magnitude bound of the integrand at q, uniform in (i, j): every factor replaced by (a bound of) its
+      \* absolute value, argument leaves by their maximum over the dofs.  The comparison tolerance of the whole
+      \* case is proportional to Mag = sum_q |w_q| PJ EvM(q).
+      RECURSIVE EvM(_, _)
+      EvM(t, q) ==
+        CASE t.t = "num" -> Up(CMag(<<R(t.re), R(t.im)>>))
+          [] t.t = "sum" -> LET RECURSIVE SA(_)
+                                SA(k) == IF k = 0 THEN Zero ELSE MAdd(SA(k - 1), EvM(t.a[k], q))
+                            IN SA(Len(t.a))
+          [] t.t = "prod" -> LET RECURSIVE PA(_)
+                                 PA(k) == IF k = 0 THEN One ELSE MMul(PA(k - 1), EvM(t.a[k], q))
+                             IN PA(Len(t.a))
+          [] t.t = "div" -> Up(RDiv(EvM(t.a, q), CMag(Ev(t.b, q, 0, 0))))
+          [] t.t = "pow" -> IF t.e >= 0 THEN Up(RPow(EvM(t.a, q), t.e)) ELSE Up(CMag(CPow(Ev(t.a, q, 0, 0), t.e)))
+          [] t.t \in {"abs", "conj", "real", "imag"} -> EvM(t.a, q)
+          [] t.t = "sqrt" -> MAdd(One, EvM(t.a, q))
+          [] t.t \in {"cond", "max", "min"} -> RMax(EvM(t.a, q), EvM(t.b, q))
+          [] t.t = "al" -> ALM[t.id][q]
+          [] t.t = "cl" -> CL[t.id][q][2]
+          [] t.t = "const" -> Up(CMag(<<RInt(cs.c[t.k + 1][t.c + 1][1]), RInt(cs.c[t.k + 1][t.c + 1][2])>>))
           [] t.t = "x" -> LET s == Side(t.r)
                               F(n) == RAbs(RMul(XD(s, n, t.c + 1), R(xtab[s][1][q][n][1])))
-                          IN <<CReal(Xphys[s][q][t.c + 1]), Up(RSumTo(F, nxn))>>
-          [] t.t = "n" -> <<CReal(Normal(Side(t.r), q)[t.c + 1]), One>>
-          [] t.t = "detJ" -> Leaf(CReal(DetJ[Side(t.r)][q]))
-          [] t.t = "J" -> Leaf(CReal(Jac[Side(t.r)][q][t.c + 1][t.k + 1]))
-          [] t.t = "K" -> Leaf(CReal(Kinv[Side(t.r)][q][t.c + 1][t.k + 1]))
+                          IN Up(RSumTo(F, nxn))
+          [] t.t = "n" -> One
+          [] t.t = "detJ" -> PJ[Side(t.r)][q]
+          [] t.t = "J" -> JacM[Side(t.r)][q][t.c + 1][t.k + 1]
+          [] t.t = "K" -> KbM[Side(t.r)][q]
       \* a comparison evaluated exactly on its threshold is decided by rounding in the kernel:
       \* such cases are outside what "up to floating-point rounding" can settle (skipped, counted)
       RECURSIVE Knife(_, _)
       Knife(t, q) ==
         CASE t.t \in {"lt", "le", "gt", "ge", "eq", "ne"} ->
-               (Ev(t.a, q, 0, 0)[1] = Ev(t.b, q, 0, 0)[1]) \/ Knife(t.a, q) \/ Knife(t.b, q)
+               (Ev(t.a, q, 0, 0) = Ev(t.b, q, 0, 0)) \/ Knife(t.a, q) \/ Knife(t.b, q)
           [] t.t \in {"and", "or"} -> Knife(t.a, q) \/ Knife(t.b, q)
           [] t.t = "not" -> Knife(t.a, q)
           [] t.t = "cond" -> Knife(t.c, q) \/ Knife(t.a, q) \/ Knife(t.b, q)
           [] t.t \in {"sum", "prod"} -> \E k \in 1..Len(t.a) : Knife(t.a[k], q)
           [] t.t \in {"div", "max", "min"} -> Knife(t.a, q) \/ Knife(t.b, q)
-          [] t.t = "abs" -> LET a == Ev(t.a, q, 0, 0)[1]
+          [] t.t = "abs" -> LET a == Ev(t.a, q, 0, 0)
                             IN (a[2][1] # 0 /\ ~RIsSquare(CAbs2(a))) \/ Knife(t.a, q)      \* |z| irrational
-          [] t.t = "sqrt" -> LET a == Ev(t.a, q, 0, 0)[1]
+          [] t.t = "sqrt" -> LET a == Ev(t.a, q, 0, 0)
                              IN a[2][1] # 0 \/ a[1][1] < 0 \/ ~RIsSquare(a[1]) \/ Knife(t.a, q)
           [] t.t \in {"pow", "conj", "real", "imag"} -> Knife(t.a, q)
           [] OTHER -> FALSE
@@ -297,38 +315,39 @@ PartTensor(P, C, cs, part) ==
       Entry(i, j) ==
         LET jj == IF P.rank >= 2 /\ P.diagonal THEN i ELSE j
             RECURSIVE QA(_)
-            QA(q) == IF q = 0 THEN <<CZero, Zero>>
-                     ELSE LET e == Ev(part.tree, q, i, jj)
-                              wq == WQ[q]
-                              h == QA(q - 1)
-                          IN <<CAdd(h[1], CScale(wq, e[1])), MAdd(h[2], MMul(WQM[q], e[2]))>>
+            QA(q) == IF q = 0 THEN CZero ELSE CAdd(QA(q - 1), CScale(WQ[q], Ev(part.tree, q, i, jj)))
         IN QA(NQ)
+      Mag == LET RECURSIVE QM(_)
+                 QM(q) == IF q = 0 THEN Zero ELSE MAdd(QM(q - 1), MMul(WQM[q], EvM(part.tree, q)))
+             IN QM(NQ)
+      MagExpr == LET RECURSIVE QX(_)
+                     QX(q) == IF q = 0 THEN Zero ELSE RMax(QX(q - 1), EvM(part.tree, q))
+                 IN QX(NQ)
   IN IF ~PointsAgree THEN <<"points-disagree">>
      ELSE IF ~InRange THEN <<"out-of-range">>
      ELSE IF itype = "expression"
           THEN \* no quadrature sum: A[point][component][dof]; this part is one component, indexed [dof][point]
-               <<"ok", [i \in 0..(n0 - 1) |-> [qq \in 0..(NQ - 1) |-> Ev(part.tree, qq + 1, i, 0)]], Amp>>
-     ELSE <<"ok", [i \in 0..(n0 - 1) |-> [j \in 0..(n1 - 1) |-> Entry(i, j)]], Amp>>
+               <<"ok", [i \in 0..(n0 - 1) |-> [qq \in 0..(NQ - 1) |-> Ev(part.tree, qq + 1, i, 0)]], Amp, MagExpr>>
+     ELSE <<"ok", [i \in 0..(n0 - 1) |-> [j \in 0..(n1 - 1) |-> Entry(i, j)]], Amp, Mag>>
 
 CaseTensor(c) ==
   LET cs == D.cases[c]  C == D.confs[cs.conf]  P == D.progs[C.prog]
       parts == [k \in 1..Len(C.parts) |-> PartTensor(P, C, cs, C.parts[k])]
       bad == {k \in 1..Len(parts) : parts[k][1] # "ok"}
   IN IF bad # {} THEN <<parts[CHOOSE k \in bad : TRUE][1]>>
-     ELSE IF P.itype = "expression"
-          THEN <<"ok-expr", [k \in 1..Len(parts) |-> parts[k][2]],
-                 LET RECURSIVE AE(_)
-                     AE(k) == IF k = 0 THEN One ELSE LET h == AE(k - 1) IN IF RLt(h, parts[k][3]) THEN parts[k][3] ELSE h
-                 IN AE(Len(parts))>>
-     ELSE LET t1 == parts[1][2]
-              RECURSIVE Acc(_, _, _)
-              Acc(k, i, j) == IF k = 0 THEN <<CZero, Zero>>
-                              ELSE LET h == Acc(k - 1, i, j)  e == parts[k][2][i][j]
-                                   IN <<CAdd(h[1], e[1]), MAdd(h[2], e[2])>>
-              RECURSIVE AmpAll(_)
-              AmpAll(k) == IF k = 0 THEN One
-                           ELSE LET h == AmpAll(k - 1) IN IF RLt(h, parts[k][3]) THEN parts[k][3] ELSE h
-          IN <<"ok", [i \in DOMAIN t1 |-> [j \in DOMAIN t1[i] |-> Acc(Len(parts), i, j)]], AmpAll(Len(parts))>>
+     ELSE LET RECURSIVE AE(_)
+              AE(k) == IF k = 0 THEN One ELSE RMax(AE(k - 1), parts[k][3])
+              RECURSIVE MS(_)
+              MS(k) == IF k = 0 THEN Zero ELSE MAdd(MS(k - 1), parts[k][4])
+              RECURSIVE MXs(_)
+              MXs(k) == IF k = 0 THEN Zero ELSE RMax(MXs(k - 1), parts[k][4])
+          IN IF P.itype = "expression"
+             THEN <<"ok-expr", [k \in 1..Len(parts) |-> parts[k][2]], AE(Len(parts)), MXs(Len(parts))>>
+             ELSE LET t1 == parts[1][2]
+                      RECURSIVE Acc(_, _, _)
+                      Acc(k, i, j) == IF k = 0 THEN CZero ELSE CAdd(Acc(k - 1, i, j), parts[k][2][i][j])
+                  IN <<"ok", [i \in DOMAIN t1 |-> [j \in DOMAIN t1[i] |-> Acc(Len(parts), i, j)]],
+                       AE(Len(parts)), MS(Len(parts))>>
 
 ---------------------------------------------------------------------------
 VARIABLES cid, done
